@@ -1,9 +1,11 @@
 (** C15 - hex, swtpm-log, pcapng and auto inputs decode like the bytes they carry.
     The front-ends hand the bytes they extract to the same decoder ([Binary.marshal]); what is proved here
-    is which bytes they extract.  dpkt's pcapng/IP/Ethernet parsing is outside the model (correspondence only).
+    is which bytes they extract, and which front-end auto-detection picks.  dpkt's pcapng/IP/Ethernet parsing is
+    outside the model (correspondence only); what the pcapng front-end does with the TCP payloads dpkt delivers
+    (runts skipped, every packet trimmed to its own size field) is modelled and proved.
     Statement file: theorem statements, [exact], Print Assumptions only. *)
-From Coq Require Import ZArith List String Bool.
-From TV Require Import Model.Frontends Proofs.HexProofs Proofs.SwtpmProofs.
+From Coq Require Import ZArith List String Bool Lia.
+From TV Require Import Model.Frontends Proofs.HexProofs Proofs.SwtpmProofs Proofs.AutoProofs.
 Import ListNotations.
 Open Scope Z_scope.
 
@@ -35,3 +37,34 @@ Example C15_hex_example : parse_hex [32;56;10;48;32;48;65;9;102;70] = mkParsed [
 Proof. vm_compute. reflexivity. Qed.
 Example C15_hex_rejects_sign : p_ok (parse_hex [43;102]) = false.
 Proof. vm_compute. reflexivity. Qed.
+
+(** auto-detection: a hex text (spelling at least one byte, any layout of whitespace incl. leading and inside the first
+    pair) is taken for hex - unless it starts with LF CR, which is the two-byte pcapng magic *)
+Theorem C15_auto_picks_hex : forall s bs, spells s bs -> bs <> [] -> (forall r, s <> 10 :: 13 :: r) -> detect s = FHex.
+Proof. exact auto_picks_hex. Qed.
+Print Assumptions C15_auto_picks_hex.
+
+(** ... an input is taken for a capture exactly when it starts with that magic ... *)
+Theorem C15_auto_picks_pcapng_iff_magic : forall s, detect s = FPcapng <-> exists r, s = 10 :: 13 :: r.
+Proof. intros s. split; [apply auto_pcapng_only_for_magic|intros (r & ->); apply auto_picks_pcapng]. Qed.
+Print Assumptions C15_auto_picks_pcapng_iff_magic.
+
+(** ... and anything (of two bytes or more) whose first byte is neither blank nor a hex digit - every TPM message: the
+    structure tags start with 0x80 or 0x00 - for binary *)
+Theorem C15_auto_picks_binary : forall a b r, is_ws a = false -> hexval a = None -> detect (a :: b :: r) = FBinary.
+Proof. exact auto_picks_binary. Qed.
+Print Assumptions C15_auto_picks_binary.
+
+(** pcapng: of a capture made of packets that carry a whole message (its size field = its length) followed by any
+    trailer (the mssim acknowledgement), interleaved with runts, exactly the messages are delivered, in order *)
+Theorem C15_capture_delivers_its_messages : forall ps bs, capture ps bs -> pcap_bytes ps = bs.
+Proof. exact capture_delivers_its_messages. Qed.
+Print Assumptions C15_capture_delivers_its_messages.
+
+Example C15_capture_example :
+  capture [[1;2;3]; [128;1;0;0;0;10;0;0;0;0] ++ [0;0;0;0]; []; [128;1;0;0;0;12;0;0;1;68;0;0] ++ []]
+          ([128;1;0;0;0;10;0;0;0;0] ++ [128;1;0;0;0;12;0;0;1;68;0;0] ++ []).
+Proof.
+  apply cap_runt; [cbn; lia|]. apply cap_msg; [split; [cbn; lia|reflexivity]|]. apply cap_runt; [cbn; lia|].
+  apply cap_msg; [split; [cbn; lia|reflexivity]|]. apply cap_nil.
+Qed.
